@@ -221,4 +221,16 @@ PROPS = {
         "level_text": "Exploration: hundreds to thousands of links, each computed 14 ways; the relations of the statement are evaluated exactly on the results. Right level: the property relates configurations of real runs; the first known counterexample needs a 35-crossing input far beyond unit tests, which the torus family reaches.",
         "level_note": "Relations are necessary, not sufficient; combined with C01/C02 for absolute correctness.",
     },
+    "C05": {
+        "budget_s": {"quick": 150, "thorough": 2400},
+        "floor": {"quick": 1500, "thorough": 40000},
+        "rule": "diagrams as in C01 (<= 8 crossings quick / 10) x parameter rings K[H] (h=H,t=0), K[T] (h=0,t=T), K[H,T] for K in i64, Ratio<i64>, FF<2>, FF<3> x reduced (t=0) / unreduced x pools of 1,4,16 threads; "
+                "KhComplex::<R>::new(..).d_matrix(i) and the generator lists are exported term by term; checks with own polynomial arithmetic: matrix/generator sizes consistent, every generator of C_i has h-degree i, "
+                "every monomial c H^a T^b from x to y satisfies qdeg(y) - 2a - 4b = qdeg(x), d_{i+1} d_i = 0, and for 2 (quick) / 4 evaluation points (h0,t0) from {0,+-1,2,3}x{0,+-1,2,-2,3} the evaluated complex has the same homology "
+                "(own cancellation + SNF over Z incl. torsion; ranks via a 31-bit prime for Q; mod p for F_p) as KhHomology::new(l,h0,t0,reduced) over the matching ring; non-trivial = >= 3 crossings; distinct = hash(PD, flags, reduced)",
+        "assumptions": COMMON_ASSUME + ["ranks over Q are computed modulo the prime 2^31-1 (a rank drop modulo that prime would show as a false alarm; none observed)", "non-PID rings have no homology oracle: d^2 = 0, grading and commutation with specialisation are what is checked there"],
+        "technique": "reference-model monitor: exported differentials re-multiplied / re-graded / re-evaluated with own polynomial and modular arithmetic, evaluated complex compared with the directly built one",
+        "level_text": "Exploration: thousands to hundreds of thousands of (diagram, parameter ring, variant) tuples; each of the three clauses (d^2=0, grading, specialisation) is decided exactly by independent arithmetic on the exported matrices. Right level: input/configuration property with exact, cheap judges.",
+        "level_note": "Trusts the term-by-term export (iter over stored terms) and own arithmetic.",
+    },
 }
